@@ -39,6 +39,7 @@ Definition prop_case (inp obs : list Z) : Z :=
   else if (hdZ obs =? -777777) && (Nat.eqb (length obs) 1) then 98
   else let '(snap, leak, rest) := dec_snapshot (setup ++ conc) obs in
        if negb (leak =? 0) then 13
+       else if negb (shapes_eqb (st_sh snap) (spec_shapes (st_sh (init sm dm)) (setup ++ conc))) then 14
        else if negb (Nat.eqb (length rest) 0) then 99
        else state_code snap.
 
